@@ -27,15 +27,18 @@ TARGETS = [18, 19, 20, 21]
 
 # default-domain steps: name -> (lowest, highest source opset at which the spelling is valid, needs conversion)
 STEPS = {
-    "reducemean_attr": (11, 17, True),
+    "reducemean_attr": (9, 17, True),
     "reducemax_attr": (11, 17, True),
     "reducel2_attr": (11, 17, True),
-    "reducesum_attr": (11, 12, True),
-    "unsq_sq_attr": (11, 12, True),
+    "reducesum_attr": (9, 12, True),
+    "unsq_sq_attr": (9, 12, True),
     "split_attr": (11, 12, True),
     "softmax_old": (11, 12, True),
-    "relu": (11, 17, False),
-    "add_self": (11, 17, False),
+    # the converter turns these attributes into graph INITIALIZERS of the converted model
+    "pad_attr": (9, 10, True),
+    "clip_attr": (9, 10, True),
+    "relu": (9, 17, False),
+    "add_self": (9, 17, False),
 }
 CUSTOMS = ["ScaleShift", "AddMul", "MaybeBias", "Tagged"]
 
@@ -46,6 +49,8 @@ def gen_spec(rng, idx: int):
     src = rng.randrange(11, 18)
     if idx % 5 == 0:
         src = rng.choice([11, 12])  # the attribute-carried spellings
+    if idx % 4 == 3:
+        src = rng.choice([9, 10])   # Pad / Clip with attributes: conversion introduces graph initializers
     target = TARGETS[(idx // 2) % 4]
     dom = DOMAINS[idx % len(DOMAINS)]
     cv = 1 + idx % 4
@@ -53,6 +58,8 @@ def gen_spec(rng, idx: int):
     need = [s for s in avail if STEPS[s][2]]
     n_steps = rng.randrange(1, 4)
     steps = [rng.choice(need)] + [rng.choice(avail) for _ in range(n_steps - 1)]
+    if src <= 10:
+        steps[0] = ["pad_attr", "clip_attr"][idx // 4 % 2]
     rng.shuffle(steps)
     chain = [("d", s) for s in steps]
     n_custom = rng.randrange(1, 4)
@@ -88,6 +95,10 @@ def np_step(np, name, x):
         f = x.reshape(x.shape[0], -1).astype(np.float64)
         e = np.exp(f - f.max(1, keepdims=True))
         return (e / e.sum(1, keepdims=True)).reshape(x.shape).astype(np.float32)
+    if name == "pad_attr":
+        return np.pad(x, [(0, 0)] * (x.ndim - 1) + [(1, 2)], constant_values=0.5)
+    if name == "clip_attr":
+        return np.clip(x, -0.25, 0.75)
     if name == "relu":
         return np.maximum(x, 0)
     if name == "add_self":
@@ -138,6 +149,12 @@ def onnx_nodes(onnx, chain, x_name, prefix, shape, np):
                                          split=[1, dummy.shape[-1] - 1], name=f"{prefix}n{i}"))
             elif s == "softmax_old":
                 nodes.append(h.make_node("Softmax", [cur], [out], name=f"{prefix}n{i}"))
+            elif s == "pad_attr":
+                r = len(dummy.shape)
+                nodes.append(h.make_node("Pad", [cur], [out], mode="constant", value=0.5,
+                                         pads=[0] * (r - 1) + [1] + [0] * (r - 1) + [2], name=f"{prefix}n{i}"))
+            elif s == "clip_attr":
+                nodes.append(h.make_node("Clip", [cur], [out], min=-0.25, max=0.75, name=f"{prefix}n{i}"))
             elif s == "relu":
                 nodes.append(h.make_node("Relu", [cur], [out], name=f"{prefix}n{i}"))
             elif s == "add_self":
